@@ -267,6 +267,7 @@ func (r *recordIter) setIntColumnMeta(timeColVals *record.ColVal, idx int, rec *
 	var minV, maxV, minVTime, maxVTime, sumV, countV int64
 	var colIndex, lastIndex, firstIndex, minIndex, maxIndex int
 	nilCount := 0
+	lastRow := -1                   // row of the last non-null value (lastIndex counts values, the aux columns need the row)
 	var lastVTime, firstVTime int64 // times of the latest / earliest non-null value, whatever the order of the record
 	colIndex = -1
 	lastIndex, firstIndex, minIndex, maxIndex = -1, -1, -1, -1
@@ -306,6 +307,7 @@ func (r *recordIter) setIntColumnMeta(timeColVals *record.ColVal, idx int, rec *
 		sumV += cols[index-nilCount]
 		if colIndex == 0 || timeCol >= lastVTime {
 			lastIndex = colIndex
+			lastRow = index
 			lastVTime = timeCol
 		}
 	}
@@ -316,7 +318,7 @@ func (r *recordIter) setIntColumnMeta(timeColVals *record.ColVal, idx int, rec *
 	rec.ColMeta[idx].SetCount(countV)
 	rec.ColMeta[idx].SetSum(sumV)
 
-	setColValInAux(timeColVals, idx, ops, rec, minIndex, firstIndex, maxIndex, lastIndex)
+	setColValInAux(timeColVals, idx, ops, rec, minIndex, firstIndex, maxIndex, lastRow)
 }
 
 func (r *recordIter) setBoolColumnMeta(timeColVals *record.ColVal, idx int, rec *record.Record, ops []*comm.CallOption) {
@@ -335,6 +337,7 @@ func (r *recordIter) setBoolColumnMeta(timeColVals *record.ColVal, idx int, rec 
 	var minV, maxV bool
 	var colIndex, lastIndex, firstIndex, minIndex, maxIndex int
 	nilCount := 0
+	lastRow := -1                   // row of the last non-null value (lastIndex counts values, the aux columns need the row)
 	var lastVTime, firstVTime int64 // times of the latest / earliest non-null value, whatever the order of the record
 	lastIndex, firstIndex, minIndex, maxIndex = -1, -1, -1, -1
 
@@ -374,6 +377,7 @@ func (r *recordIter) setBoolColumnMeta(timeColVals *record.ColVal, idx int, rec 
 		}
 		if colIndex == 0 || timeCol >= lastVTime {
 			lastIndex = colIndex
+			lastRow = index
 			lastVTime = timeCol
 		}
 	}
@@ -383,7 +387,7 @@ func (r *recordIter) setBoolColumnMeta(timeColVals *record.ColVal, idx int, rec 
 	rec.ColMeta[idx].SetMax(maxV, maxVTime)
 	rec.ColMeta[idx].SetCount(countV)
 
-	setColValInAux(timeColVals, idx, ops, rec, minIndex, firstIndex, maxIndex, lastIndex)
+	setColValInAux(timeColVals, idx, ops, rec, minIndex, firstIndex, maxIndex, lastRow)
 }
 
 func (r *recordIter) setFloatColumnMeta(timeColVals *record.ColVal, idx int, rec *record.Record, ops []*comm.CallOption) {
@@ -402,6 +406,7 @@ func (r *recordIter) setFloatColumnMeta(timeColVals *record.ColVal, idx int, rec
 	var minV, maxV, sumV float64
 	var colIndex, lastIndex, firstIndex, minIndex, maxIndex int
 	nilCount := 0
+	lastRow := -1                   // row of the last non-null value (lastIndex counts values, the aux columns need the row)
 	var lastVTime, firstVTime int64 // times of the latest / earliest non-null value, whatever the order of the record
 	colIndex = -1
 	lastIndex, firstIndex, minIndex, maxIndex = -1, -1, -1, -1
@@ -443,6 +448,7 @@ func (r *recordIter) setFloatColumnMeta(timeColVals *record.ColVal, idx int, rec
 		sumV += cols[index-nilCount]
 		if colIndex == 0 || timeCol >= lastVTime {
 			lastIndex = colIndex
+			lastRow = index
 			lastVTime = timeCol
 		}
 	}
@@ -453,7 +459,7 @@ func (r *recordIter) setFloatColumnMeta(timeColVals *record.ColVal, idx int, rec
 	rec.ColMeta[idx].SetCount(countV)
 	rec.ColMeta[idx].SetSum(sumV)
 
-	setColValInAux(timeColVals, idx, ops, rec, minIndex, firstIndex, maxIndex, lastIndex)
+	setColValInAux(timeColVals, idx, ops, rec, minIndex, firstIndex, maxIndex, lastRow)
 }
 
 func (r *recordIter) setStringColumnMeta(timeColVals *record.ColVal, idx int, rec *record.Record, ops []*comm.CallOption) {
@@ -470,6 +476,7 @@ func (r *recordIter) setStringColumnMeta(timeColVals *record.ColVal, idx int, re
 
 	var colIndex, lastIndex, firstIndex int
 	nilCount := 0
+	lastRow := -1                   // row of the last non-null value (lastIndex counts values, the aux columns need the row)
 	var lastVTime, firstVTime int64 // times of the latest / earliest non-null value, whatever the order of the record
 	colIndex = -1
 	lastIndex, firstIndex = -1, -1
@@ -490,6 +497,7 @@ func (r *recordIter) setStringColumnMeta(timeColVals *record.ColVal, idx int, re
 
 		if colIndex == 0 || timeCol >= lastVTime {
 			lastIndex = colIndex
+			lastRow = index
 			lastVTime = timeCol
 		}
 	}
@@ -497,7 +505,7 @@ func (r *recordIter) setStringColumnMeta(timeColVals *record.ColVal, idx int, re
 	// the strings of StringValues alias the column's buffer, which setColValInAux rewrites below
 	rec.ColMeta[idx].SetLast(strings.Clone(cols[lastIndex]), lastVTime)
 	rec.ColMeta[idx].SetCount(countV)
-	setColValInAux(timeColVals, idx, ops, rec, -1, firstIndex, -1, lastIndex)
+	setColValInAux(timeColVals, idx, ops, rec, -1, firstIndex, -1, lastRow)
 }
 
 // mergeData is used for merge two record iter data(eg, mem table and immutable or order and out order in immutable)
@@ -543,30 +551,39 @@ func mergeData(newRecIter, baseRecIter *recordIter, maxRow int, ascending bool) 
 }
 
 func setSchemaColVal(field *record.Field, col *record.ColVal, rowIndex int) {
+	// the column is reduced to the value of the selected row - also when that value is null
 	switch field.Type {
 	case influx.Field_Type_Float:
 		value, isNil := col.FloatValue(rowIndex)
+		col.Init()
 		if !isNil {
-			col.Init()
 			col.AppendFloat(value)
+		} else {
+			col.AppendFloatNull()
 		}
 	case influx.Field_Type_Int:
 		value, isNil := col.IntegerValue(rowIndex)
+		col.Init()
 		if !isNil {
-			col.Init()
 			col.AppendInteger(value)
+		} else {
+			col.AppendIntegerNull()
 		}
 	case influx.Field_Type_String:
 		value, isNil := col.StringValueSafe(rowIndex)
+		col.Init()
 		if !isNil {
-			col.Init()
 			col.AppendString(value)
+		} else {
+			col.AppendStringNull()
 		}
 	case influx.Field_Type_Boolean:
 		value, isNil := col.BooleanValue(rowIndex)
+		col.Init()
 		if !isNil {
-			col.Init()
 			col.AppendBoolean(value)
+		} else {
+			col.AppendBooleanNull()
 		}
 	}
 }
